@@ -183,7 +183,20 @@ def merge_case(ctx, seed):
     tracks = rand_tracks(rng, skip)
     case = lambda: {'kind': 'merge', 'seed': seed}  # noqa: E731
     via = 'merged_track' if (skip and rng.random() < 0.3) else 'merge_tracks'
-    judge_merge(ctx, tracks, skip, case, via)
+    out = judge_merge(ctx, tracks, skip, case, via)
+    if out is not None and rng.random() < 0.6:
+        # what the caller does with the returned track must not influence later merges
+        for m in out:
+            try:
+                m.time = m.time + 480
+            except Exception:
+                pass
+        if len(out):
+            out.pop()
+        judge_merge(ctx, tracks, skip, lambda: {'kind': 'merge', 'seed': seed, 'after': 'result edited'}, via,
+                    clause='re-merge after edit == model')
+        judge_merge(ctx, [], skip, lambda: {'kind': 'merge', 'seed': seed, 'after': 'result edited, empty merge'},
+                    'merge_tracks', clause='re-merge after edit == model')
     for r in range(rng.choice((0, 1, 3))):
         what = edit(rng, tracks)
         judge_merge(ctx, tracks, skip, lambda: {'kind': 'merge', 'seed': seed, 'after_edit': [r, what]},
